@@ -37,6 +37,9 @@ type checker struct {
 	// violation reported at that point); the remaining enumeration would only pile up
 	// consequences on a contract of unbounded size, so it is skipped.
 	broken bool
+	// the attempt in flight, for failures detected outside attempt()
+	cur       *attempt
+	curBefore snap
 }
 
 // name renders a root as a pool number (or an unknown number) for replay files.
@@ -74,6 +77,39 @@ func sameSnap(a, b snap) (roots, rev, acct bool) {
 	return slices.Equal(a.roots, b.roots), bytes.Equal(a.revBytes, b.revBytes), a.acct == b.acct && a.acct2 == b.acct2
 }
 
+// affordable: can the contract pay what core says the attempt costs under its price table
+// (core's arithmetic is the oracle, not the code under test)
+func (k *checker) affordable(a attempt, before snap) bool {
+	hp := k.e.priceTables[a.Prices]
+	var u proto4.Usage
+	switch a.Kind {
+	case kindFreeClient, kindFreeRaw:
+		set := map[uint64]bool{}
+		for _, i := range a.Idx {
+			set[i] = true
+		}
+		n := len(a.Idx)
+		if a.Kind == kindFreeClient {
+			n = len(set)
+		}
+		u = hp.RPCFreeSectorsCost(n)
+	case kindAppend:
+		var appended uint64
+		for _, n := range a.Sectors {
+			if n < unknownBase {
+				appended++
+			}
+		}
+		growth := appended - min(appended, (before.rev.Capacity-before.rev.Filesize)/proto4.SectorSize)
+		u = hp.RPCAppendSectorsCost(growth, before.rev.ExpirationHeight-hp.TipHeight)
+	case kindRoots:
+		u = hp.RPCSectorRootsCost(a.Len)
+	case kindFund:
+		u = proto4.Usage{AccountFunding: k.e.fundAmount(a, before)}
+	}
+	return before.rev.RenterOutput.Value.Cmp(u.RenterCost()) >= 0 && before.rev.MissedHostValue.Cmp(u.HostRiskedCollateral()) >= 0
+}
+
 // expectation of the harness, from the property text and the protocol rules alone
 func (k *checker) mustCommit(a attempt, before snap) (must, mustNot bool) {
 	size := uint64(len(before.roots))
@@ -93,9 +129,13 @@ func (k *checker) mustCommit(a attempt, before snap) (must, mustNot bool) {
 		valid = len(a.Sectors) > 0
 	case kindRoots:
 		valid = a.Len > 0 && a.Off <= size && a.Len <= size-a.Off
+	case kindFund:
+		valid = a.Len > 0
 	}
-	if a.Kind == kindRoots && (a.Script == scriptCloseAfterResp || a.Script == scriptCloseAfterSig) {
-		return valid, !valid // single round: run() treats these as complete
+	valid = valid && a.Pre == preNone && k.affordable(a, before)
+	single := a.Kind == kindRoots || a.Kind == kindFund // one round: the request carries the signature
+	if single && (a.Script == scriptCloseAfterResp || a.Script == scriptCloseAfterSig) {
+		return valid, !valid // run() treats these as complete
 	}
 	switch a.Script {
 	case scriptComplete:
@@ -105,7 +145,7 @@ func (k *checker) mustCommit(a attempt, before snap) (must, mustNot bool) {
 		// frames in order: the host has everything it needs and commits
 		return valid, !valid
 	case scriptCloseAfterReq:
-		if a.Kind == kindRoots { // single round: the request carries the renter's signature
+		if single {
 			return valid, !valid
 		}
 		return false, true
@@ -131,6 +171,7 @@ func (k *checker) attempt(a attempt, toCoq bool, phase string) snap {
 			k.fail("state-changed-between-attempts", fmt.Sprintf("roots same=%v revision same=%v balance same=%v although no RPC ran", r, v, b), before, a, nil)
 		}
 	}
+	k.cur, k.curBefore = &a, before
 	ob := e.run(a, before)
 	if err := e.quiesce(); err != nil {
 		k.fail("host-handler-stuck", "the host handler had not returned 20s after the renter side finished: "+a.String(), before, a, nil)
@@ -162,6 +203,10 @@ func (k *checker) attempt(a attempt, toCoq bool, phase string) snap {
 			fmt.Sprintf("after %s the contractor holds %d roots under Filesize %d", a, len(after.roots), after.rev.Filesize), before, a, extra)
 	}
 
+	if a.Script == scriptInterleaved && a.Other != nil {
+		k.judgeInterleaved(a, before, after, ob, toCoq, phase, extra)
+		return after
+	}
 	must, mustNot := k.mustCommit(a, before)
 	if must && !committed {
 		k.fail("valid-rpc-not-committed", fmt.Sprintf("%s on %d roots should succeed; renter side saw %q and the revision did not advance", a, len(before.roots), ob.clientErr), before, a, extra)
@@ -184,8 +229,12 @@ func (k *checker) attempt(a attempt, toCoq bool, phase string) snap {
 		if after.rev.RevisionNumber != before.rev.RevisionNumber+1 {
 			k.fail("revision-number-jumps", fmt.Sprintf("%s moved the revision number from %d to %d", a, before.rev.RevisionNumber, after.rev.RevisionNumber), before, a, extra)
 		}
-		if after.acct != before.acct {
-			k.fail("contract-rpc-changes-account-balance", fmt.Sprintf("%s changed the account balance from %v to %v", a, before.acct, after.acct), before, a, extra)
+		wantAcct := before.acct
+		if a.Kind == kindFund {
+			wantAcct = before.acct.Add(e.fundAmount(a, before))
+		}
+		if after.acct != wantAcct || after.acct2 != before.acct2 {
+			k.fail("contract-rpc-changes-account-balance", fmt.Sprintf("%s took the account balance from %s H to %s H (expected %s H)", a, before.acct.ExactString(), after.acct.ExactString(), wantAcct.ExactString()), before, a, extra)
 		}
 		// the harness's own list model
 		var want []types.Hash256
@@ -209,7 +258,7 @@ func (k *checker) attempt(a attempt, toCoq bool, phase string) snap {
 					want = append(want, e.pool[n])
 				}
 			}
-		case kindRoots:
+		case kindRoots, kindFund:
 			want = before.roots
 		}
 		if have && !slices.Equal(want, after.roots) {
@@ -244,6 +293,15 @@ func (k *checker) attempt(a attempt, toCoq bool, phase string) snap {
 	// bookkeeping
 	res.Count("kind:" + kindNames[a.Kind])
 	res.Count("script:" + scriptNames[a.Script])
+	if a.Pre != 0 {
+		res.Count("precondition:" + preNames[a.Pre])
+	}
+	if a.Prices != 0 {
+		res.Count("prices:" + priceNames[a.Prices])
+		if !k.affordable(a, before) {
+			res.Count("prices:payment-fails")
+		}
+	}
 	res.Count(fmt.Sprintf("size:%02d", len(before.roots)))
 	res.Count("phase:" + phase)
 	if committed {
@@ -332,7 +390,7 @@ func (k *checker) judgeAccount(a attempt, before, after snap, ob observed, toCoq
 			}
 			ys[i] = ids[h]
 		}
-		k.cases = append(k.cases, fmt.Sprintf("mk_case 5 %s [%s; %s] [%s; %s] 0 %s %s [%s] 0", out.NList(xs), bal.ExactString(), cost.ExactString(), out.Bool(valid), out.Bool(has), out.Bool(ob.served), out.NList(ys), balAfter.ExactString()))
+		k.cases = append(k.cases, fmt.Sprintf("mk_case 5 %s [%s; %s] [%s; %s] 0 %s %s [%s] [] [] 0", out.NList(xs), bal.ExactString(), cost.ExactString(), out.Bool(valid), out.Bool(has), out.Bool(ob.served), out.NList(ys), balAfter.ExactString()))
 	}
 }
 
@@ -372,6 +430,342 @@ func (k *checker) accountAttempts(r *rng.R, phase string) {
 			}
 		}
 	}
+}
+
+// generalised: the dimensions added in the generalisation pass (seeded/LESSONS.md): requests
+// that are refused before the handler looks at their content, price tables at the extremes
+// (revisions that move nothing, usage the contract cannot pay), funding as the other RPC
+// that revises the contract, a second RPC while the first handler waits, extreme arguments.
+func (k *checker) generalised(r *rng.R) {
+	// refused on entry: unknown contract, invalid challenge signature, tampered price table;
+	// each is followed by an ordinary RPC on the same contract (the lock must be free again)
+	for _, base := range []int{0, 3} {
+		for pre := preUnknownContract; pre <= preTamperedPrices; pre++ {
+			for _, a := range []attempt{
+				{Kind: kindFreeRaw, Idx: []uint64{0}},
+				{Kind: kindFreeRaw, Idx: []uint64{}},
+				{Kind: kindAppend, Sectors: []int{1}},
+				{Kind: kindRoots, Off: 0, Len: 1},
+				{Kind: kindFund, Len: 1000},
+			} {
+				if base == 0 && (len(a.Idx) > 0 || a.Kind == kindRoots) {
+					continue
+				}
+				if pre == preBadChallenge && (a.Kind == kindRoots || a.Kind == kindFund) || pre == preTamperedPrices && a.Kind == kindFund {
+					continue // these requests carry no challenge / no price table
+				}
+				a.Pre, a.BadSig = pre, r.Intn(200)
+				for _, script := range []int{scriptComplete, scriptCloseAfterSig, scriptCloseAfterReq} {
+					a.Script = script
+					k.ensure(seqInts(base))
+					k.attempt(a, true, "refused-on-entry")
+				}
+				k.attempt(attempt{Kind: kindAppend, Sectors: []int{2}}, true, "refused-on-entry")
+			}
+		}
+	}
+	// price tables: all zero (revisions that move no funds) and unaffordable (the payment
+	// fails after the first response of free and append; stored capacity makes an append free)
+	for _, table := range []int{pricesZero, pricesUnaffordable} {
+		for _, script := range []int{scriptComplete, scriptBadSignature, scriptCloseAfterResp, scriptCloseAfterSig} {
+			for _, a := range []attempt{
+				{Kind: kindFreeClient, Idx: []uint64{0, 0, 2}},
+				{Kind: kindFreeRaw, Idx: []uint64{1}},
+				{Kind: kindFreeRaw, Idx: []uint64{}},
+				{Kind: kindAppend, Sectors: []int{0, unknownBase}},
+				{Kind: kindRoots, Off: 1, Len: 2},
+			} {
+				if a.Kind == kindFreeClient && script != scriptComplete {
+					a.Kind, a.Idx = kindFreeRaw, []uint64{2, 0}
+				}
+				a.Prices, a.Script, a.BadSig = table, script, r.Intn(4)
+				k.ensure(seqInts(3))
+				k.attempt(a, true, "price-tables")
+			}
+			// an append that has to grow the contract beyond everything it ever stored
+			k.ensure(seqInts(8))
+			st := k.e.snapshot()
+			grow := int((st.rev.Capacity-st.rev.Filesize)/proto4.SectorSize) + 2
+			var sectors []int
+			for i := 0; i < grow && i < 40; i++ {
+				sectors = append(sectors, i%len(k.e.pool))
+			}
+			k.attempt(attempt{Kind: kindAppend, Sectors: sectors, Prices: table, Script: script, BadSig: r.Intn(4)}, true, "price-tables")
+		}
+	}
+	// funding: the other RPC that revises the contract; the roots must stay
+	for _, base := range []int{0, 4} {
+		for _, a := range []attempt{
+			{Kind: kindFund, Len: 1},
+			{Kind: kindFund, Len: 123456789},
+			{Kind: kindFund, Len: 0},
+			{Kind: kindFund, Len: 7, Raw: true},
+			{Kind: kindFund, Len: 0, Script: scriptCloseAfterReq},
+			{Kind: kindFund, Len: 5, Prices: pricesUnaffordable},
+			{Kind: kindFund, Len: 5, Prices: pricesUnaffordable, Script: scriptCloseAfterReq},
+			{Kind: kindFund, Len: 1000, Script: scriptBadSignature, BadSig: r.Intn(4)},
+			{Kind: kindFund, Len: 1000, Script: scriptCloseAfterReq},
+			{Kind: kindFund, Len: 1000, Script: scriptHalfRequest},
+		} {
+			k.ensure(seqInts(base))
+			k.attempt(a, true, "funding")
+		}
+	}
+	// a second RPC on another stream while the handler of the first waits for the signature
+	for _, first := range []attempt{
+		{Kind: kindFreeRaw, Idx: []uint64{2, 0}},
+		{Kind: kindAppend, Sectors: []int{0, 5}},
+	} {
+		for _, other := range []attempt{
+			{Kind: kindFreeRaw, Idx: []uint64{1}},
+			{Kind: kindFreeClient, Idx: []uint64{3, 3}},
+			{Kind: kindAppend, Sectors: []int{6}},
+			{Kind: kindRoots, Off: 1, Len: 2},
+			{Kind: kindFund, Len: 4242},
+			{Kind: kindAccount, Op: "read", Variant: acctValid, Root: 1, Len: 64},
+			{Kind: kindAccount, Op: "read", Variant: acctUnknownRoot, Root: unknownBase, Len: 64},
+			{Kind: kindAccount, Op: "write", Variant: acctValid, Len: 64},
+		} {
+			o := other
+			first.Script, first.Other = scriptInterleaved, &o
+			k.ensure(seqInts(4))
+			k.attempt(first, true, "interleaved")
+		}
+	}
+	// extreme arguments on the raw wire
+	k.ensure(seqInts(3))
+	many := make([]uint64, proto4.MaxSectorBatchSize+1)
+	for i := range many {
+		many[i] = uint64(i)
+	}
+	for _, a := range []attempt{
+		{Kind: kindFreeRaw, Idx: []uint64{1 << 63}},
+		{Kind: kindFreeRaw, Idx: []uint64{^uint64(0), 0}},
+		{Kind: kindFreeRaw, Idx: []uint64{^uint64(0) - 1, ^uint64(0)}, Script: scriptCloseAfterSig},
+		{Kind: kindRoots, Off: ^uint64(0), Len: 2, Raw: true},
+		{Kind: kindRoots, Off: 1, Len: ^uint64(0), Raw: true},
+		{Kind: kindRoots, Off: 0, Len: proto4.MaxSectorBatchSize + 1, Raw: true},
+		{Kind: kindRoots, Off: ^uint64(0) - 1, Len: 3, Script: scriptCloseAfterReq},
+	} {
+		k.attempt(a, true, "extreme-arguments")
+	}
+	k.attempt(attempt{Kind: kindFreeRaw, Idx: many}, false, "extreme-arguments")
+}
+
+// blindWorker is a renter working on one contract with nothing but what the RPCs return: its
+// own record of the revision and its own list model; the harness does not look at the host
+// while it runs.
+type blindWorker struct {
+	cid    types.FileContractID
+	rev    types.V2FileContract
+	model  []types.Hash256
+	funded types.Currency
+	ops    []string
+	err    string
+}
+
+func (k *checker) blindRun(w *blindWorker, r *rng.R, steps int) {
+	e := k.e
+	ctx := context.Background()
+	for i := 0; i < steps && w.err == ""; i++ {
+		cr := rhp4.ContractRevision{ID: w.cid, Revision: w.rev}
+		p := r.Intn(10)
+		if len(w.model) > 40 {
+			p = r.Intn(5) // shrink or list
+		}
+		err := safely(func() error {
+			switch {
+			case len(w.model) > 0 && p < 3:
+				idx := randomIndices(r, len(w.model), min(len(w.model)+1, 6+len(w.model)/4))
+				w.ops = append(w.ops, fmt.Sprintf("free%v", idx))
+				res, err := rhp4.RPCFreeSectors(ctx, e.tc, e.renterKey, e.cs, e.prices, cr, idx)
+				if err != nil {
+					return err
+				}
+				w.rev = res.Revision
+				w.model, _ = modelFree(w.model, idx)
+			case len(w.model) > 0 && p < 5: // a read API as the first call after a change
+				off := uint64(r.Intn(len(w.model)))
+				n := 1 + uint64(r.Intn(len(w.model)-int(off)))
+				w.ops = append(w.ops, fmt.Sprintf("list[%d,+%d]", off, n))
+				res, err := rhp4.RPCSectorRoots(ctx, e.tc, e.cs, e.prices, e.renterKey, cr, off, n)
+				if err != nil {
+					return err
+				}
+				w.rev = res.Revision
+				if !slices.Equal(res.Roots, w.model[off:off+n]) {
+					return fmt.Errorf("listing [%d,+%d) returned %v, the renter's own model has %v", off, n, k.names(res.Roots), k.names(w.model[off:off+n]))
+				}
+			case p == 5:
+				w.ops = append(w.ops, "fund")
+				amt := types.NewCurrency64(uint64(1 + r.Intn(1000)))
+				res, err := rhp4.RPCFundAccounts(ctx, e.tc, e.cs, e.renterKey, cr, []proto4.AccountDeposit{{Account: e.account, Amount: amt}})
+				if err != nil {
+					return err
+				}
+				w.rev, w.funded = res.Revision, w.funded.Add(amt)
+			default:
+				n := 1 + r.Intn(5)
+				roots := make([]types.Hash256, n)
+				var names []int
+				for j := range roots {
+					s := r.Intn(len(e.pool))
+					if r.Intn(6) == 0 {
+						s = unknownBase + r.Intn(3)
+					}
+					roots[j], names = e.sectorRoot(s), append(names, s)
+				}
+				w.ops = append(w.ops, fmt.Sprintf("append%v", names))
+				res, err := rhp4.RPCAppendSectors(ctx, e.tc, e.renterKey, e.cs, e.prices, cr, roots)
+				if err != nil {
+					return err
+				}
+				w.rev = res.Revision
+				for _, s := range names {
+					if s < unknownBase {
+						w.model = append(w.model, e.pool[s])
+					}
+				}
+			}
+			return nil
+		})
+		if err != nil {
+			w.err = fmt.Sprintf("step %d (%s): %v", i, w.ops[len(w.ops)-1], err)
+		}
+	}
+}
+
+// blindStretch runs renters on the two contracts — one after the other or at the same time —
+// without any look at the host in between, and judges only at the end.
+func (k *checker) blindStretch(r *rng.R, parallel bool, steps int) {
+	if k.broken {
+		return
+	}
+	e, res := k.e, k.c.Res
+	e.quiesce()
+	before := [2]snap{e.snapshotOf(e.cid), e.snapshotOf(e.cid2)}
+	ws := [2]*blindWorker{{cid: e.cid, rev: before[0].rev, model: slices.Clone(before[0].roots)}, {cid: e.cid2, rev: before[1].rev, model: slices.Clone(before[1].roots)}}
+	rs := [2]*rng.R{r.Fork(), r.Fork()}
+	if parallel {
+		done := make(chan struct{}, 2)
+		for i := range ws {
+			go func() { k.blindRun(ws[i], rs[i], steps); done <- struct{}{} }()
+		}
+		<-done
+		<-done
+	} else {
+		for i := range ws {
+			k.blindRun(ws[i], rs[i], steps)
+		}
+	}
+	stuck := e.quiesce()
+	mode := "sequential"
+	if parallel {
+		mode = "parallel"
+	}
+	res.Count("blind-stretch:" + mode)
+	funded := types.ZeroCurrency
+	for i, w := range ws {
+		after := e.snapshotOf(w.cid)
+		rp := map[string]any{"mode": mode, "contract": i, "base": k.names(before[i].roots), "operations": w.ops, "other_contract_operations": ws[1-i].ops, "roots_after": k.names(after.roots), "renter_model": k.names(w.model)}
+		fail := func(kind, detail string) { res.Fail(kind, detail, rp) }
+		res.CountN("blind-stretch:rpcs", len(w.ops))
+		res.Eval(fmt.Sprint(mode, i, k.names(before[i].roots), w.ops), true)
+		if stuck != nil {
+			fail("host-handler-stuck", "handlers still running 20 s after a blind stretch")
+		}
+		if w.err != "" {
+			fail("blind-stretch-rpc-fails", fmt.Sprintf("%s renter on contract %d, working only from what the RPCs returned, failed at %s after %v", mode, i, w.err, w.ops))
+		}
+		if proto4.MetaRoot(after.roots) != after.rev.FileMerkleRoot || uint64(len(after.roots))*proto4.SectorSize != after.rev.Filesize {
+			fail("stored-roots-do-not-hash-to-committed-root", fmt.Sprintf("after a %s blind stretch %v contract %d holds %d roots hashing to %v under FileMerkleRoot %v, Filesize %d", mode, w.ops, i, len(after.roots), proto4.MetaRoot(after.roots), after.rev.FileMerkleRoot, after.rev.Filesize))
+		}
+		if w.err == "" {
+			if !slices.Equal(after.roots, w.model) {
+				fail("roots-differ-from-list-model", fmt.Sprintf("after the %s blind stretch %v on %v the host stores %v, the renter's list model gives %v", mode, w.ops, k.names(before[i].roots), k.names(after.roots), k.names(w.model)))
+			}
+			if !bytes.Equal(encodeRev(w.rev), after.revBytes) {
+				fail("renter-and-host-hold-different-revisions", fmt.Sprintf("after the %s blind stretch %v the renter's last revision (%d) is not the host's (%d)", mode, w.ops, w.rev.RevisionNumber, after.rev.RevisionNumber))
+			}
+		}
+		funded = funded.Add(w.funded)
+		if i == 1 && ws[0].err == "" && ws[1].err == "" && after.acct != before[0].acct.Add(funded) {
+			fail("contract-rpc-changes-account-balance", fmt.Sprintf("blind stretch: account %s H -> %s H although %s H were deposited", before[0].acct.ExactString(), after.acct.ExactString(), funded.ExactString()))
+		}
+	}
+	for _, p := range e.rec.takeProblems() {
+		res.Fail(p.Kind, p.Detail+" during a "+mode+" blind stretch", map[string]any{"mode": mode, "operations_0": ws[0].ops, "operations_1": ws[1].ops})
+	}
+	k.last = nil
+}
+
+// renewal: the renewed contract inherits the roots; the old one is finished.
+func (k *checker) renewal(r *rng.R) {
+	if k.broken {
+		return
+	}
+	e, res := k.e, k.c.Res
+	k.ensure([]int{0, 1, 2, 1, 4})
+	before := e.snapshot()
+	old, err := e.renew(before.rev)
+	e.quiesce()
+	rp := map[string]any{"base": k.names(before.roots), "operation": "RPCRenewContract"}
+	res.Count("renewal")
+	res.Eval(fmt.Sprint("renew", k.names(before.roots)), true)
+	if err != nil {
+		res.Fail("valid-rpc-not-committed", fmt.Sprintf("renewing the contract holding %v failed: %v", k.names(before.roots), err), rp)
+		return
+	}
+	oldAfter, neu := e.snapshotOf(old), e.snapshot()
+	rp["roots_of_renewal"], rp["roots_of_renewed"] = k.names(neu.roots), k.names(oldAfter.roots)
+	for name, s := range map[string]snap{"the renewal": neu, "the renewed contract": oldAfter} {
+		if proto4.MetaRoot(s.roots) != s.rev.FileMerkleRoot || uint64(len(s.roots))*proto4.SectorSize != s.rev.Filesize {
+			res.Fail("stored-roots-do-not-hash-to-committed-root", fmt.Sprintf("after RPCRenewContract %s holds %v (%d roots) under FileMerkleRoot %v, Filesize %d", name, k.names(s.roots), len(s.roots), s.rev.FileMerkleRoot, s.rev.Filesize), rp)
+		}
+	}
+	if !slices.Equal(neu.roots, before.roots) {
+		res.Fail("roots-differ-from-list-model", fmt.Sprintf("the renewal of a contract holding %v holds %v", k.names(before.roots), k.names(neu.roots)), rp)
+	}
+	if neu.acct != before.acct {
+		res.Fail("contract-rpc-changes-account-balance", fmt.Sprintf("renewal changed the account balance from %v to %v", before.acct, neu.acct), rp)
+	}
+	ids := map[types.Hash256]uint64{}
+	num := func(hs []types.Hash256) string {
+		xs := make([]uint64, len(hs))
+		for i, h := range hs {
+			if _, ok := ids[h]; !ok {
+				ids[h] = uint64(len(ids) + 1)
+			}
+			xs[i] = ids[h]
+		}
+		return out.NList(xs)
+	}
+	k.cases = append(k.cases, fmt.Sprintf("mk_case 7 %s [] [] 0 true %s [] [] [] 0", num(before.roots), num(neu.roots)))
+	k.last = nil
+	// the renewal is an ordinary contract …
+	for i := 0; i < 24; i++ {
+		st := e.snapshot()
+		k.attempt(randomAttempt(r, len(st.roots), len(e.pool), 8), true, "on-renewal")
+	}
+	k.readBack("on the renewal")
+	// … and the renewed contract is closed: whatever is tried on it changes nothing
+	cur := e.cid
+	e.cid = old
+	k.last = nil
+	for _, a := range []attempt{
+		{Kind: kindFreeClient, Idx: []uint64{0}},
+		{Kind: kindFreeRaw, Idx: []uint64{1, 0}, Script: scriptCloseAfterResp},
+		{Kind: kindAppend, Sectors: []int{3}},
+		{Kind: kindAppend, Sectors: []int{3}, Script: scriptCloseAfterSig},
+		{Kind: kindRoots, Off: 0, Len: 2},
+		{Kind: kindFund, Len: 99},
+	} {
+		a.Pre = preUnknownContract // not revisable: refused on entry like an unknown contract
+		a.BadSig = -1
+		k.attempt(a, false, "on-renewed-contract")
+	}
+	e.cid = cur
+	k.last = nil
 }
 
 // coqCase renames roots to small numbers in order of first appearance.
@@ -419,12 +813,122 @@ func (k *checker) coqCase(a attempt, before, after snap, committed bool, ob obse
 		if ob.gotResp {
 			outs = list(ob.listed)
 		}
+	case kindFund:
+		args = fmt.Sprintf("[%s; %s]", k.e.fundAmount(a, before).ExactString(), before.acct.ExactString())
+		outs = "[" + after.acct.ExactString() + "]"
 	}
 	aux := 0
 	if a.Kind == kindRoots && ob.gotResp && ob.proofLen >= 0 {
 		aux = 1 + ob.proofLen
 	}
-	return fmt.Sprintf("mk_case %d %s %s %s %d %s %s %s %d", a.Kind, rootsB, args, has, a.Script, out.Bool(committed), list(after.roots), outs, aux)
+	flags := out.List([]string{out.Bool(a.Pre != preUnknownContract), out.Bool(a.Pre != preBadChallenge), out.Bool(a.Pre != preTamperedPrices), out.Bool(k.affordable(a, before))})
+	other := "[]"
+	if o := a.Other; o != nil {
+		switch o.Kind {
+		case kindFreeRaw:
+			other = out.NList(append([]uint64{1}, o.Idx...))
+		case kindAppend:
+			xs := []uint64{2}
+			for _, n := range o.Sectors {
+				xs = append(xs, id(k.e.sectorRoot(n)))
+			}
+			other = out.NList(xs)
+		case kindRoots:
+			other = out.NList([]uint64{3, o.Off, o.Len})
+		case kindFund:
+			other = out.NList([]uint64{6, o.Len})
+		}
+	}
+	return fmt.Sprintf("mk_case %d %s %s %s %d %s %s %s %s %s %d", a.Kind, rootsB, args, has, a.Script, out.Bool(committed), list(after.roots), outs, flags, other, aux)
+}
+
+// judgeInterleaved: attempt a ran to completion and, while its handler waited for the
+// signature, a.Other ran on another stream. The final state must be explained by the RPCs
+// that reported success to the renter, applied in some order; whatever failed left no trace.
+func (k *checker) judgeInterleaved(a attempt, before, after snap, ob observed, toCoq bool, phase string, extra map[string]any) {
+	e, res := k.e, k.c.Res
+	o := a.Other
+	firstOK := ob.result != nil
+	otherOK := ob.other != nil && (ob.other.result != nil || ob.other.served)
+	extra["first_succeeded"], extra["other_succeeded"] = firstOK, otherOK
+	apply := func(roots []types.Hash256, x attempt) []types.Hash256 {
+		switch x.Kind {
+		case kindFreeClient, kindFreeRaw:
+			r, _ := modelFree(roots, x.Idx)
+			return r
+		case kindAppend:
+			r := slices.Clone(roots)
+			for _, n := range x.Sectors {
+				if n < unknownBase {
+					r = append(r, e.pool[n])
+				}
+			}
+			return r
+		}
+		return roots
+	}
+	var wants [][]types.Hash256
+	contractRPCs := 0
+	wantAcct := before.acct
+	switch {
+	case firstOK && otherOK && o.Kind != kindAccount:
+		wants = [][]types.Hash256{apply(apply(before.roots, a), *o), apply(apply(before.roots, *o), a)}
+		contractRPCs = 2
+	case firstOK:
+		wants, contractRPCs = [][]types.Hash256{apply(before.roots, a)}, 1
+	case otherOK && o.Kind != kindAccount:
+		wants, contractRPCs = [][]types.Hash256{apply(before.roots, *o)}, 1
+	default:
+		wants = [][]types.Hash256{before.roots}
+	}
+	if otherOK && o.Kind == kindAccount {
+		wantAcct = wantAcct.Sub(e.accountCost(*o))
+	}
+	if otherOK && o.Kind == kindFund {
+		wantAcct = wantAcct.Add(types.NewCurrency64(o.Len))
+	}
+	if a.Kind == kindFund && firstOK {
+		wantAcct = wantAcct.Add(types.NewCurrency64(a.Len))
+	}
+	okRoots := false
+	for _, w := range wants {
+		okRoots = okRoots || slices.Equal(w, after.roots)
+	}
+	if !okRoots {
+		k.fail("interleaved-rpcs-not-serialisable", fmt.Sprintf("%s on %v: first succeeded=%v, other succeeded=%v, but the host stores %v, which no order of the successful RPCs explains", a, k.names(before.roots), firstOK, otherOK, k.names(after.roots)), before, a, extra)
+	}
+	if after.rev.RevisionNumber != before.rev.RevisionNumber+uint64(contractRPCs) {
+		k.fail("interleaved-rpcs-revision-count", fmt.Sprintf("%s: %d contract RPCs succeeded but the revision number went from %d to %d", a, contractRPCs, before.rev.RevisionNumber, after.rev.RevisionNumber), before, a, extra)
+	}
+	if after.acct != wantAcct || after.acct2 != before.acct2 {
+		k.fail("interleaved-rpcs-balance", fmt.Sprintf("%s: account balance %s H -> %s H, expected %s H", a, before.acct.ExactString(), after.acct.ExactString(), wantAcct.ExactString()), before, a, extra)
+	}
+	if contractRPCs == 0 {
+		if _, v, _ := sameSnap(before, after); !v {
+			k.fail("failed-or-abandoned-rpc-changes-revision", fmt.Sprintf("%s: no contract RPC succeeded but the stored revision differs", a), before, a, extra)
+		}
+	}
+	res.Count("kind:" + kindNames[a.Kind])
+	res.Count("script:" + scriptNames[a.Script])
+	res.Count("phase:" + phase)
+	res.Count("interleaved-with:" + kindNames[o.Kind])
+	switch {
+	case firstOK && !otherOK:
+		res.Count("interleaved:other-refused-first-committed")
+	case firstOK && otherOK:
+		res.Count("interleaved:both-succeeded")
+	case otherOK:
+		res.Count("interleaved:only-other-succeeded")
+	default:
+		res.Count("interleaved:neither-succeeded")
+	}
+	res.Eval(fmt.Sprint(k.names(before.roots), a), len(before.roots) >= 2)
+	// the model describes the lock: while the first handler waits every contract RPC on another
+	// stream is refused. Where the implementation admits the other RPC (a narrower lock is
+	// permitted by the property) only the monitors above judge.
+	if toCoq && o.Kind != kindAccount && firstOK && !otherOK && o.Kind != kindFreeClient {
+		k.cases = append(k.cases, k.coqCase(a, before, after, true, ob))
+	}
 }
 
 // ensure brings the contract to the given roots (pool numbers) with complete RPCs
@@ -538,14 +1042,21 @@ func runC09(c *hx.Ctx) {
 	res.Rule = "one RPC attempt (free through the renter API, free on the raw wire, append, sector-roots listing; complete or stopped at a message boundary / with an invalid renter signature) against the real rhp4.Server + EphemeralContractor + EphemeralSectorStore from a known stored root list; exhaustive over contract sizes 0..N and all index lists of length <= size, plus random append/free/list sequences up to 64 sectors; non-trivial := the contract holds >= 2 roots before or after and the attempt names at least one index, sector or range; distinct by (stored roots, attempt)"
 	// nothing the code under test does may kill the harness: a panic during setup or in a
 	// helper is reported as a monitor failure
+	var k *checker
 	defer func() {
 		if r := recover(); r != nil {
+			if l, ok := r.(contractLocked); ok && k != nil && k.cur != nil {
+				// every handler has returned (quiesce) and the contract is still locked
+				k.fail("contract-left-locked-after-rpc", fmt.Sprintf("2 s after %s returned, LockV2Contract still fails (%v): no further RPC can touch the contract", k.cur, l.err), k.curBefore, *k.cur, nil)
+				res.WriteCases("Run.Run_C09", k.cases)
+				return
+			}
 			res.Fail("host-renter-setup-or-helper-panics", fmt.Sprintf("%v\n%s", r, debug.Stack()), map[string]any{"panic": fmt.Sprint(r)})
 		}
 	}()
 	e := newEnv(c.R.Fork(), 8)
 	defer e.close()
-	k := &checker{c: c, e: e}
+	k = &checker{c: c, e: e}
 
 	if c.Replay != "" {
 		var rp struct {
@@ -610,7 +1121,7 @@ func runC09(c *hx.Ctx) {
 					idx = append(idx, uint64(i))
 				}
 			}
-			for script := scriptCloseAfterReq; script <= scriptHalfRequest; script++ {
+			for script := scriptCloseAfterReq; script <= scriptHalfSignature; script++ {
 				k.ensure(seqInts(n))
 				k.attempt(attempt{Kind: kindFreeRaw, Idx: idx, Script: script, BadSig: r.Intn(4)}, n <= 4 || mask%3 == 0, "free-aborts")
 			}
@@ -657,7 +1168,7 @@ func runC09(c *hx.Ctx) {
 		}
 		rec(nil)
 		for _, l := range lists {
-			for script := scriptComplete; script <= scriptHalfRequest; script++ {
+			for script := scriptComplete; script <= scriptHalfSignature; script++ {
 				if base >= 2 && len(l) == 3 && script != scriptComplete && r.Intn(3) != 0 {
 					continue
 				}
@@ -688,7 +1199,7 @@ func runC09(c *hx.Ctx) {
 	for n := uint64(1); n <= 20; n++ {
 		for off := uint64(0); off < n; off++ {
 			for l := uint64(1); off+l <= n; l++ {
-				k.cases = append(k.cases, fmt.Sprintf("mk_case 4 [] %s [] 0 false [] [] %d", out.NList([]uint64{n, off, l}), 1+rhp2.RangeProofSize(n, off, off+l)))
+				k.cases = append(k.cases, fmt.Sprintf("mk_case 4 [] %s [] 0 false [] [] [] [] %d", out.NList([]uint64{n, off, l}), 1+rhp2.RangeProofSize(n, off, off+l)))
 				res.Count("law:range-proof-size")
 			}
 		}
@@ -698,6 +1209,7 @@ func runC09(c *hx.Ctx) {
 	k.accountAttempts(r, "account")
 	k.ensure(seqInts(3))
 	k.accountAttempts(r, "account")
+	k.generalised(r)
 	k.readBack("after the exhaustive phases")
 	res.Exhaustive = true
 	res.Explored = map[string]any{"max_contract_size_client_free": maxSize, "max_contract_size_raw_any_order": rawSize, "pool_sectors": len(e.pool)}
@@ -726,6 +1238,13 @@ func runC09(c *hx.Ctx) {
 			k.readBack(fmt.Sprintf("after random sequence %d", s))
 		}
 	}
+	// (7) blind stretches: renters on two contracts that work only from what the RPCs return,
+	// one after the other and at the same time; judged at the end
+	for i := 0; i < c.Scale(6, 60); i++ {
+		k.blindStretch(c.R.Fork(), i%2 == 1, 8+i%3*4)
+	}
+	// (8) renewal
+	k.renewal(c.R.Fork())
 	k.readBack("at the end")
 	res.CountN("host:revise-calls", e.rec.revises)
 	res.WriteCases("Run.Run_C09", k.cases)
